@@ -98,6 +98,26 @@ def run(pid, tier, seed, replay=None):
     # 4. known findings -----------------------------------------------------------------
     kf_lines = []
     for f in ctx.known:
+        if not f.get("witness") and f.get("real_repro"):
+            # a finding none of this check's engines reaches (nested executors, warnings turned into errors, ...): it
+            # is identified by its real-process script, which the thorough tier runs against /repo
+            script = os.path.join(C.ROOT, str(f["real_repro"]).split(":")[0].split(" ")[0])
+            if tier == "thorough" and os.path.exists(script):
+                import subprocess
+                try:
+                    rr = subprocess.run(["timeout", "180", "/venv/bin/python", script], cwd=C.REPO, capture_output=True, text=True,
+                                        env=dict(os.environ, PYTHONPATH=C.REPO), timeout=200)
+                    still = rr.returncode != 0
+                except subprocess.TimeoutExpired:
+                    still = True
+                if still:
+                    kf_lines.append(f"KNOWN-FINDING: property={pid} {f['id']}: {f['what']}")
+                else:
+                    C.log(f"[{pid}] listed finding {f['id']} no longer reproduces ({f['real_repro']} passes)")
+            else:
+                kf_lines.append(f"KNOWN-FINDING: property={pid} {f['id']}: {f['what']} [real-process script "
+                                f"{f['real_repro']}: run by the thorough tier]")
+            continue
         r = prop.replay_finding(ctx, f)
         if r.get("fails"):
             kf_lines.append(f"KNOWN-FINDING: property={pid} {f['id']}: {f['what']}")
